@@ -30,7 +30,7 @@ type c05Req struct {
 	values []string
 }
 
-const c05NReqs = 7
+const c05NReqs = 9
 
 // c05Req builds request k; parameter values are symbolic one-byte segments
 func c05MkReq(k int) c05Req {
@@ -59,6 +59,10 @@ func c05MkReq(k int) c05Req {
 	case 5:
 		x := seg()
 		return c05Req{"/b/7/" + x + "/9", 4, []string{"7", x, "9"}}
+	case 6:
+		return c05Req{"*", -1, nil} // OPTIONS * : a request path that is not rooted
+	case 7:
+		return c05Req{"", -1, nil} // CONNECT / absolute-form target: empty URL.Path
 	}
 	return c05Req{"/u/1", -1, nil}
 }
